@@ -81,6 +81,10 @@ var targets = []target{
 	{"oauthproxy.go", "checkAllowedEmails", "", ""},
 	{"pkg/ip/realclientip.go", "GetRealClientIP", "xForwardedForClientIPParser", "header:str"},
 	{"pkg/ip/realclientip.go", "getRemoteIP", "", ""},
+	{"pkg/cookies/csrf.go", "HashOAuthState", "csrf", "OAuthState:optstr"},
+	{"pkg/cookies/csrf.go", "HashOIDCNonce", "csrf", "OIDCNonce:optstr"},
+	{"pkg/cookies/csrf.go", "CheckOAuthState", "csrf", "OAuthState:optstr"},
+	{"pkg/cookies/csrf.go", "CheckOIDCNonce", "csrf", "OIDCNonce:optstr"},
 	{"pkg/cookies/csrf.go", "ExtractStateSubstring", "", ""},
 	{"pkg/cookies/csrf.go", "csrfCookieName", "", ""},
 	{"pkg/cookies/csrf.go", "GenerateCookieName", "", ""},
@@ -469,6 +473,9 @@ func (t *tr) expr(e ast.Expr) (string, string) {
 		}
 		if id, ok := x.X.(*ast.Ident); ok {
 			if k, ok := t.recvFields[id.Name+"."+x.Sel.Name]; ok {
+				if k == kOptStr && !t.rawOpt {
+					return "(" + ident(id.Name+"_"+x.Sel.Name) + ".getD [])", kStr
+				}
 				return ident(id.Name + "_" + x.Sel.Name), k
 			}
 			if k, ok := t.kinds[id.Name]; ok {
@@ -776,7 +783,7 @@ func (t *tr) call(x *ast.CallExpr) (string, string) {
 		// a translated function of another package: pkg.F(...)
 		if pkg, ok := sel.X.(*ast.Ident); ok {
 			if _, isVar := t.kinds[pkg.Name]; !isVar {
-				if _, ok := t.sigs[sel.Sel.Name]; ok && (pkg.Name == "requestutil" || pkg.Name == "util") {
+				if _, ok := t.sigs[sel.Sel.Name]; ok && (pkg.Name == "requestutil" || pkg.Name == "util" || pkg.Name == "encryption") {
 					return t.call(&ast.CallExpr{Fun: ast.NewIdent(sel.Sel.Name), Args: x.Args, Ellipsis: x.Ellipsis})
 				}
 			}
